@@ -105,5 +105,5 @@ ReplayRecord ==
    mirror |-> [reg |-> RegView, out |-> out]]
 
 Replay == Terminal => PrintT(<<"REPLAY", ToJson(ReplayRecord)>>)
-View == <<input, phase, added, mods, reg, start, todo, err, out>>
+View == StdView
 =============================================================================
